@@ -1132,6 +1132,59 @@ fn run_collide(threads: usize, rounds: usize) -> (String, String, String) {
     )
 }
 
+/// `vq early <rounds>`: sub-millisecond and millisecond timers polled with try_receive() in a tight loop
+/// (so that the expiry test runs arbitrarily close before the deadline), through receive_timeout() and
+/// through a receive() entered just before the deadline: the event must never come back before the
+/// requested duration has elapsed since the moment *before* the scheduling call
+fn run_early(rounds: usize) -> (String, String, String) {
+    if rounds == 0 || rounds > 100_000 {
+        return ("bad-case".into(), "ok".into(), String::new())
+    }
+    let mut q = EventReceiver::<u64>::default();
+    let tx = q.sender().clone();
+    let durs_us = [900u64, 500, 750, 7000, 12000, 3000, 1500, 250];
+    let mut early = 0usize;
+    let mut worst = Duration::ZERO;
+    for r in 0..rounds {
+        let d = Duration::from_micros(durs_us[r % durs_us.len()]);
+        let t0 = Instant::now();
+        tx.send_with_timer(r as u64, d);
+        let got_at = match r % 3 {
+            0 => loop {
+                if q.try_receive().is_some() {
+                    break Instant::now()
+                }
+                std::hint::spin_loop();
+            },
+            1 => {
+                q.receive_timeout(Duration::from_secs(2));
+                Instant::now()
+            }
+            _ => {
+                // enter the blocking call about 300 us before the deadline
+                if d > Duration::from_micros(400) {
+                    let until = t0 + d - Duration::from_micros(300);
+                    while Instant::now() < until {
+                        std::hint::spin_loop();
+                    }
+                }
+                q.receive();
+                Instant::now()
+            }
+        };
+        let elapsed = got_at.duration_since(t0);
+        if elapsed < d {
+            early += 1;
+            worst = worst.max(d - elapsed);
+        }
+    }
+    (
+        format!("early={}", early),
+        if early == 0 { "ok".into() } else { format!("FAIL {} of {} timers were delivered before their duration had elapsed (up to {:?} early)", early, rounds, worst) },
+        "early,woken".into(),
+    )
+}
+
 fn run_race(kind: char) -> (String, String, String, String) {
     use message_io::util::verif::set_sync_handler;
     use std::sync::atomic::{AtomicBool, Ordering};
@@ -1161,10 +1214,16 @@ fn run_race(kind: char) -> (String, String, String, String) {
         IS_RECEIVER.with(|f| f.set(true));
         std::thread::sleep(Duration::from_millis(20));
         armed2.store(true, Ordering::SeqCst);
-        let r1 = if kind == 'T' { q.try_receive() } else { q.receive_timeout(Duration::from_millis(10)) };
+        let r1 = match kind {
+            'T' => q.try_receive(),
+            'E' => q.receive_timeout(Duration::from_millis(300)),
+            'B' => Some(q.receive()),
+            _ => q.receive_timeout(Duration::from_millis(10)),
+        };
+        let t1 = Instant::now();
         std::thread::sleep(Duration::from_millis(5));
         let r2 = q.try_receive();
-        (r1, r2)
+        (r1, r2, t1)
     });
     // wait until the receiver sits at the sync point
     let reached = {
@@ -1172,15 +1231,49 @@ fn run_race(kind: char) -> (String, String, String, String) {
         let (g, _) = at_point.1.wait_timeout_while(g, Duration::from_secs(2), |r| !*r).unwrap();
         *g
     };
-    tx.cancel_timer(id);
+    let expire = kind == 'E' || kind == 'B';
+    if !expire {
+        tx.cancel_timer(id);
+    }
     let cancelled_at = Instant::now();
     let in_time = cancelled_at < before + Duration::from_millis(40);
     // let the deadline pass while the receiver is held
     std::thread::sleep((before + Duration::from_millis(46)).saturating_duration_since(Instant::now()));
     *release.0.lock().unwrap() = true;
     release.1.notify_all();
-    let (r1, r2) = rx_thread.join().unwrap();
+    let released_at = Instant::now();
+    if kind == 'B' {
+        // a sentinel, so that a receive() that slept through the timer comes back at all
+        let tx2 = tx.clone();
+        std::thread::spawn(move || {
+            std::thread::sleep(Duration::from_millis(400));
+            tx2.send(999);
+        });
+    }
+    let (r1, r2, t1) = rx_thread.join().unwrap();
     set_sync_handler(None);
+    if expire {
+        // the timer expired while the receiver sat between its expiry test and going to sleep:
+        // the call must still return it at once
+        let case = if kind == 'E' {
+            "vq sched st40:7 tick20 callR300 clk fold tick26 waketimer clk fold callT clk fold".to_string()
+        }
+        else {
+            "vq sched st40:7 tick20 callB clk fold tick26 waketimer clk fold callT clk fold".to_string()
+        };
+        let imp = format!("[{},{}]", show(r1), show(if r2 == Some(999) { None } else { r2 }));
+        let late = t1.saturating_duration_since(released_at) > Duration::from_millis(150);
+        let verdict = if !reached {
+            "inconclusive".to_string()
+        }
+        else if r1 != Some(7) || late {
+            format!("FAIL a timer that expired while the receiver was about to sleep did not wake it (got {} after {:?})", show(r1), t1.saturating_duration_since(released_at))
+        }
+        else {
+            "ok".to_string()
+        };
+        return (case, imp, verdict, "forced-race,woken".into())
+    }
     let case = if kind == 'T' {
         "vq sched st40:7 tick20 callT clk fold cancel0 tick26 callT clk fold".to_string()
     }
@@ -1280,7 +1373,7 @@ fn main() {
             emit_all(&mut out, run_conc_parallel(scripts, threads));
         }
         "gen-race" => {
-            for kind in ['T', 'R', 'T', 'R'] {
+            for kind in ['T', 'R', 'E', 'B', 'T', 'R', 'E', 'B'] {
                 let mut r = run_race(kind);
                 let mut tries = 0;
                 while r.2 == "inconclusive" && tries < 4 {
@@ -1313,6 +1406,11 @@ fn main() {
                 }
             }
         }
+        "gen-early" => {
+            let rounds = arg_u64(2, 240) as usize;
+            let (i, v, t) = run_early(rounds);
+            emit(&mut out, &format!("vq early {}", rounds), &i, &v, &t);
+        }
         "gen-collide" => {
             let threads = arg_u64(2, 8) as usize;
             let rounds = arg_u64(3, 20000) as usize;
@@ -1336,7 +1434,12 @@ fn main() {
         }
         "run" => {
             for line in stdin_lines() {
-                if line.starts_with("vq collide ") {
+                if line.starts_with("vq early ") {
+                    let n = line.trim().split(' ').nth(2).and_then(|x| x.parse().ok()).unwrap_or(0);
+                    let (i, v, t) = run_early(n);
+                    emit(&mut out, line.trim(), &i, &v, &t);
+                }
+                else if line.starts_with("vq collide ") {
                     let ws: Vec<&str> = line.trim().split(' ').collect();
                     let t = ws.get(2).and_then(|x| x.parse().ok()).unwrap_or(0);
                     let r = ws.get(3).and_then(|x| x.parse().ok()).unwrap_or(0);
